@@ -308,7 +308,7 @@ package shmipc
 //@   ensures  r1 == nil ==> r0 != nil && r0.isFromShm && r0.offsetInShm == offset && len(r0.bufferHeader) == 20 && sameMem(r0.bufferHeader, b.mem, offset)
 //@   ensures  r1 == nil ==> offset + 20 < len(b.mem) && sameMem(r0.data, b.mem, offset + 20) && len(r0.data) == mem32(b.mem, offset) && offset + 20 + len(r0.data) <= len(b.mem)
 //@   ensures  r1 == nil ==> fresh(r0) && r0.nextSlice == nil
-//@   ensures  r1 != nil ==> r0 == nil
+//@   ensures  r1 != nil ==> r0 == nil && (offset + 20 >= len(b.mem) || offset + 20 + mem32(b.mem, offset) > len(b.mem))   // fails only when it must
 //@   modifies nothing
 
 //@ func (*bufferManager).recycleBuffers
